@@ -28,6 +28,7 @@ ASSUMPTIONS = [
     "one-hot boxes of shape (3,3,3) and (2,3,4), N <= 6 molecules, up to 3 tomograms; weights are compared exactly up to 1e-6",
     "linearity of averaging (sums and a division) lifts the one-hot verdict to every real-valued tomogram of these shapes",
     "seeds 0..9 and n_set 1..3 enumerated; 'different seeds give different splits' is reported, not required",
+    "added during the seeding waves: integer tomograms, merged batches, dask auto-chunk size 256 B, call histories on one loader (average, average_split, fsc, fsc_with_halfmaps, fsc_with_average, results edited by the caller)",
 ]
 
 BOXES = [(3, 3, 3), (2, 3, 4)]
